@@ -9,8 +9,11 @@ Correspondence (in-process): model `splitlines`/`noqa`/`noqa_report` vs str.spli
 translation, refurb.main.get_source_lines, is_ignored_via_comment and should_ignore_error + sorted on generated
 lines and files; the model's physical lines vs CPython's parser (ast line numbers) on every oracle file.
 Oracle (metamorphic, end to end through the CLI in fresh processes): lint generated files, append `# noqa` /
-`# noqa: LIST` to subsets of the diagnosed physical lines on which the tokenizer accepts a comment, lint again;
-the new report must be the old one minus exactly the predicted diagnostics, in the same order.
+`# noqa: LIST` to subsets of the physical lines on which the tokenizer accepts a comment — diagnosed lines AND
+lines that carry no diagnostic (the last line of a diagnosed multi-line statement/expression, lines of its body,
+continuation lines, neighbours, anything else) — lint again; the new report must be the old one minus exactly the
+diagnostics whose OWN reported line got a comment that names them, in the same order. The model is asked to
+predict every annotated report from the old one as well.
 """
 
 from __future__ import annotations
@@ -175,7 +178,11 @@ def correspondence(ctx, d: Path) -> None:
             line_no = rng.randint(1, n_py) if rng.random() < 0.8 else rng.choice([0, -1, -3, n_py + 1, n_py + 30, -n_py, -n_py - 1])
             items.append({"k": "diag", "file": str(p), "line": line_no, "col": rng.choice([0, 4]), "prefix": pfx, "code": code, "msg": "m"})
         by = rng.choice(["filename", "error"])
-        errs = [it["s"] if it["k"] == "text" else classes[(it["prefix"], it["code"])](it["line"], it["col"], it["msg"], it["file"]) for it in items]
+        # end positions on other lines (often ones that carry a `# noqa`): the filter must not look at them
+        errs = [
+            it["s"] if it["k"] == "text" else classes[(it["prefix"], it["code"])](it["line"], it["col"], it["msg"], it["file"], rng.choice([None, it["line"], it["line"] + 1, it["line"] + 2, 1]), rng.choice([None, 0, 7]))
+            for it in items
+        ]
         s = Settings(sort_by=by)
         try:
             kept = sorted([e for e in errs if not M.should_ignore_error(e, s)], key=lambda e: M.sort_errors(e, s))
@@ -272,6 +279,19 @@ def diag_units(i: int, rng, sep: str | None) -> list[Unit]:
         Unit([f"{v} = 4242"], [(0, v)], "custom-prefix"),
         Unit([f"{v} = int(4244)"], [(0, v)], "custom-prefix-same-number"),
         Unit([f"{v} = 4242, list()"], [(0, v)], "custom-prefix-and-builtin"),
+        # multi-line diagnosed nodes: the diagnostic sits on the first line, the node ends lines later
+        Unit([f"def w{i}(lines: list[str]) -> None:", '    with open("file", "w") as f:', "        for line in lines:", "            f.write(line)", ""], [], "for-writelines"),
+        Unit([f"def r{i}(p: str) -> str:", "    with open(p) as fh:", "        data = fh.read()", "    return data", ""], [], "with-read"),
+        Unit([f"def q{i}(p: str, s: str) -> None:", '    with open(p, "w") as fh:', "        fh.write(s)", ""], [], "with-write"),
+        Unit([f"def t{i}() -> None:", "    try:", '        print("x")', "    except ValueError:", "        pass", ""], [], "try-pass"),
+        Unit([f"def c{i}(ys: list[int]) -> list[int]:", "    xs = []", "    for y in ys:", "        xs.append(y)", "    return xs", ""], [], "for-append"),
+        Unit([f"def e{i}(xs: list[int]) -> None:", "    xs.append(1)", "    xs.append(2)", ""], [], "append-twice"),
+        Unit([f"{v} = (", "    int(1)", "    + int(2)", ")"], [(0, v)], "paren-expr"),
+        Unit(["print(", '    ""', ")"], [], "multiline-call"),
+        Unit([f"{v} = 3 in [", "    1,", "    2,", "]"], [(0, v)], "multiline-in-list"),
+        Unit([f"{v} = {i}", f"if {v} == 1 or {v} == 2:", f"    {v} = 3", "else:", f"    {v} = 4"], [(0, v)], "if-or"),
+        Unit([f"{v} = [", "    x", "    for x in (1, 2)", "    if x == 1 or x == 2", "]"], [(0, v)], "comprehension-multiline"),
+        Unit([f"{v} = int(", f"    {i}", ") + int(", "    2", ")"], [(0, v)], "two-calls-chained"),
         Unit([f"{v} =\x0cint({i})"], [(0, v)], "formfeed-between-tokens"),
         Unit([f"\x0c{v} = int({i})"], [(0, v)], "formfeed-at-line-start"),
         Unit([f"{v} = int({i})\x0c"], [(0, v)], "formfeed-at-line-end"),
@@ -362,6 +382,11 @@ def fixed_files() -> list[GenFile]:
     mk("a_cr.py", ["x = int(0)", "y = int(1)", "z = int(2)"], ["\r", "\r", ""])
     mk("a_prefix.py", ["x = int(4244)", "y = 4242, list()", "z = 4242"])
     mk("a_strings.py", ['v1 = "# noqa", int(8)', "v2 = '# noqa: FURB123 FURB112 ', int(8), list()", 'v3 = int(8), "x  # noqa"', "v4 = int(8), '# noqa: '"])
+    mk(
+        "a_multiline.py",
+        ["def t() -> None:", "    try:", '        print("x")', "    except ValueError:", "        pass", "v = (", "    int(1)", "    + int(2)", ")", "print(", '    ""', ")", "w = 3 in [", "    1,", "    2,", "]"],
+    )
+    mk("a_body.py", ["def r(p: str) -> str:", "    with open(p) as fh:", "        data = fh.read()", "    return data", "def e(xs: list[int]) -> None:", "    xs.append(1)", "    xs.append(2)", "x = int(0)"])
     mk("a_existing.py", ["x = int(0)  # noqa: FURB999", "y = int(1)  # type: ignore[misc]  # why", "z = int(2)"])
     return out
 
@@ -377,7 +402,7 @@ def choose_comment(rng, codes_on_line: list[str]) -> tuple[str, Any, str]:
     gap, trail = rng.choice(COMMENT_GAPS), rng.choice(COMMENT_TRAILS)
     if kind == "bare":
         return f"{gap}# noqa{trail}", "bare", kind
-    distinct = sorted(set(codes_on_line))
+    distinct = sorted(set(codes_on_line)) or ["FURB123"]
     if kind == "match-all":
         lst = list(distinct)
     elif kind == "match-one":
@@ -442,6 +467,31 @@ def string_twin(gf: GenFile) -> GenFile | None:
             lines[row] = lines[row][: t.start[1]] + t.string.replace("# noqa", "# nqoa") + lines[row][t.end[1] :]
             changed = True
     return GenFile(gf.name, lines, gf.terms, gf.bom, gf.needles, gf.features) if changed else None
+
+
+def line_roles(gf: GenFile, diag_lines: set[int]) -> dict[int, str]:
+    """Role of every non-diagnosed physical line relative to the diagnosed nodes: the last line of a node that
+    starts on a diagnosed line, a line inside such a node (body of a statement / middle of an expression), a
+    direct neighbour of a diagnosed line, or elsewhere."""
+    roles: dict[int, str] = {}
+    try:
+        tree = ast.parse(universal(gf.raw()))
+    except SyntaxError:
+        return roles
+    rank = {"end-line": 0, "body-line": 1, "middle-line": 1, "neighbour": 2}
+    def put(ln: int, role: str) -> None:
+        if ln not in diag_lines and 1 <= ln <= len(gf.lines) and rank[role] < rank.get(roles.get(ln, ""), 9):
+            roles[ln] = role
+    for node in ast.walk(tree):
+        lo, hi = getattr(node, "lineno", None), getattr(node, "end_lineno", None)
+        if lo in diag_lines and hi is not None and hi > lo:
+            put(hi, "end-line")
+            for ln in range(lo + 1, hi):
+                put(ln, "body-line" if isinstance(node, ast.stmt) and hasattr(node, "body") else "middle-line")
+    for ln in diag_lines:
+        put(ln - 1, "neighbour")
+        put(ln + 1, "neighbour")
+    return roles
 
 
 def run_dir(d: Path, names: list[str]) -> tuple[int, list[dict[str, Any]], list[str], str]:
@@ -511,17 +561,34 @@ def oracle(ctx, d: Path) -> None:
     # ---- variants
     variants: list[dict[str, Any]] = []
     tokens = {gf.name: tok_list(universal(gf.raw())) for gf in files}
+    roles = {gf.name: line_roles(gf, {t[1] for t in by_file.get(gf.name, [])}) for gf in files}
     for v in range(n_var):
         plan: dict[str, dict[int, tuple[str, Any, str]]] = {}
         for gf in files:
-            diag_lines = sorted({t[1] for t in by_file.get(gf.name, [])})
+            diag_lines = {t[1] for t in by_file.get(gf.name, [])}
             chosen: dict[int, tuple[str, Any, str]] = {}
             p = rng.choice([0.2, 0.5, 0.8, 1.0]) if v else 1.0
-            for ln in diag_lines:
-                if not (1 <= ln <= len(gf.lines)) or rng.random() > p:
-                    continue
-                codes = [t[3] for t in by_file[gf.name] if t[1] == ln]
-                cm = ("  # noqa", "bare", "bare") if v == 0 else choose_comment(rng, codes)
+            file_codes = [t[3] for t in by_file.get(gf.name, [])]
+            if v in (1, 2):
+                p = 0.0  # only lines that carry no diagnostic: the report must not change at all
+            q_near, q_far = (1.0, 1.0) if v in (1, 2) else (0.0, 0.0) if v == 0 else (rng.choice([0.0, 0.3, 0.7]), 0.1)
+            for ln in range(1, len(gf.lines) + 1):
+                if ln in diag_lines:
+                    if rng.random() >= p:
+                        continue
+                    codes = [t[3] for t in by_file[gf.name] if t[1] == ln]
+                    cm = ("  # noqa", "bare", "bare") if v == 0 else choose_comment(rng, codes)
+                else:
+                    role = roles[gf.name].get(ln, "elsewhere")
+                    if rng.random() >= (q_far if role == "elsewhere" else q_near):
+                        continue
+                    if v == 1:
+                        cm = ("  # noqa", "bare", "bare")
+                    elif v == 2:
+                        cm = ("  # noqa: " + ", ".join(sorted(set(file_codes)) or ["FURB123"]), sorted(set(file_codes)) or ["FURB123"], "match-all/comma-space")
+                    else:
+                        cm = choose_comment(rng, file_codes)
+                    cm = (cm[0], cm[1], cm[2] + "@" + role)
                 if tokens[gf.name] is None or not comment_allowed(gf, ln, cm[0], tokens[gf.name]):
                     res.bump("oracle_line_skipped_comment_not_allowed")
                     continue
@@ -551,6 +618,12 @@ def oracle(ctx, d: Path) -> None:
         "`python -m refurb <argv>` there, once with bytes_before and once with bytes_after; or: bin/check C08 --replay <this file>"
     )
     gfs = {gf.name: gf for gf in files}
+    try:  # does the tree's get_source_lines split at anything but \n / \r? (only then can a separator shift the lookup)
+        splits_exotic = bool(set(extract_c08.probe()[0]) - {10, 13})
+    except Exception:  # noqa: BLE001
+        splits_exotic = True
+    model_reqs: list[dict[str, Any]] = []
+    model_want: list[tuple[str, int, list[tuple]]] = []
     for k, (rc, diags, other, err) in enumerate(outs):
         plan = variants[k]
         if err.strip() or other or rc not in (0, 1):
@@ -571,8 +644,16 @@ def oracle(ctx, d: Path) -> None:
             have = got_by_file.get(gf.name, [])
             for ln, cm in chosen.items():
                 res.case(("oracle", gf.raw(), ln, cm[0]), nontrivial=True)
-                res.bump("oracle_comment_" + cm[2])
+                res.bump("oracle_comment_" + cm[2].split("@")[0])
+                if "@" in cm[2]:
+                    res.bump("oracle_nondiag_" + cm[2].split("@")[1])
+                else:
+                    res.bump("oracle_diag_line_annotated")
             res.bump("oracle_file_variants")
+            # the model, given the old report and the annotated file, must predict the new report
+            model_reqs.append({"verb": "noqa_report", "by": "filename", "files": [[gf.name, universal(gf.raw({ln: cm[0] for ln, cm in chosen.items()}))]],
+                               "items": [{"k": "diag", "file": t[0], "line": t[1], "col": t[2] - 1, "prefix": t[3][:-3], "code": int(t[3][-3:]), "msg": "m"} for t in before]})
+            model_want.append((gf.name, k, [(t[1], t[2], t[3]) for t in have]))
             if gf.features.get("sep"):
                 res.bump(f"oracle_sep_{gf.features['sep']}_{gf.features['placement']}")
             if have == want:
@@ -584,7 +665,7 @@ def oracle(ctx, d: Path) -> None:
             text_after = universal(raw_after) if not gf.bom else "\ufeff" + universal(raw_after)
             sl, ph = text_after.splitlines(), ref_phys_lines(text_after)
             affected = sorted({t[1] for t in missing + extra})
-            shifted = any(ln > len(sl) or ln > len(ph) or sl[ln - 1] != ph[ln - 1] for ln in affected)
+            shifted = splits_exotic and any(ln > len(sl) or ln > len(ph) or sl[ln - 1] != ph[ln - 1] for ln in affected)
             existing = any(ln in chosen and "# noqa" in gf.lines[ln - 1] for ln in affected)
             if shifted:
                 sig = {"kind": "line-identity", "cause": "splitlines-only-separator"}
@@ -597,9 +678,18 @@ def oracle(ctx, d: Path) -> None:
                 sig = {
                     "kind": "report-differs",
                     "effect": "order-changed" if sorted(have) == sorted(want) else "not-suppressed" if extra and not missing else "wrongly-suppressed" if missing and not extra else "both",
-                    "comment": chosen[first][2] if first in chosen else "none-on-that-line",
+                    "comment": chosen[first][2].split("@")[0].split("/")[0] + ("@non-diagnosed-line" if "@" in chosen[first][2] else "") if first in chosen else "none-on-that-line",
                 }
                 what = "report after appending `# noqa` comments is not the old report minus exactly the named diagnostics"
+                if first not in chosen:
+                    # a diagnostic changed although its own line got no comment: which annotated line is to blame?
+                    rel = line_roles(gf, {first})
+                    blamed = sorted((ln for ln in chosen if ln in rel), key=lambda ln: {"end-line": 0, "body-line": 1, "middle-line": 1, "neighbour": 2}[rel[ln]])
+                    sig["other_line"] = rel[blamed[0]] if blamed else "elsewhere"
+                    what = (
+                        f"a `# noqa` on a line that carries no diagnostic ({sig['other_line']} of the node diagnosed at line {first}) changes the report: "
+                        "the comment is looked up on another line than the one the diagnostic is reported at"
+                    )
             res.violate(
                 what,
                 sig,
@@ -610,6 +700,12 @@ def oracle(ctx, d: Path) -> None:
                     "_size": len(raw_after),
                 },
             )
+    if ctx.driver.available() and model_reqs:
+        for rq, (name, k, want_m), a in zip(model_reqs, model_want, ctx.driver.batch(model_reqs)):
+            res.bump("corr_model_vs_cli_report")
+            got_m = [(it["line"], it["col"] + 1, it["prefix"] + str(it["code"])) for it in a.get("items", [])] if isinstance(a, dict) and "items" in a else a
+            if got_m != want_m:
+                res.disagree("model report vs CLI report after annotation", {"file": name, "variant": k, "text": rq["files"][0][1]}, got_m, want_m)
     # ---- second relation: text inside a string literal is not a comment
     rc, diags, other, err = twin_out
     if err.strip() or other or rc not in (0, 1):
@@ -646,9 +742,12 @@ def run(ctx) -> None:
         "second comment, other prefixes, near-miss codes) x 14 trailing texts + free soups around the tag, x 6 error codes, non-trivial = contains `# noqa`; "
         "(3) files of such lines with every terminator + diagnostics at lines incl. 0, negative, out of range (IndexError), non-trivial = has a diagnostic. "
         "oracle: fixed files + generated files (5-11 units from 22 diagnosed-unit kinds and neutral units; separator carried in a comment, a string, a "
-        "multi-line string or a bare \\f line placed before/between/after/on the diagnosed lines; LF/CRLF/CR/mixed; BOM; tabs; non-ASCII) x variants (subset of "
-        "diagnosed lines where tokenize accepts a comment; bare / match-all / match-one / non-matching / mixed / near-miss lists; comma, space, comma+space; "
-        "gaps and trailing blanks); one case = (file bytes, line, appended text)"
+        "multi-line string or a bare \\f line placed before/between/after/on the diagnosed lines; LF/CRLF/CR/mixed; BOM; tabs; non-ASCII; multi-line diagnosed "
+        "nodes: for/writelines, with-open read/write, try/except/pass, for/append, append twice, if/else, parenthesised expressions, multi-line calls, "
+        "displays and comprehensions) x variants (0: every diagnosed line bare; 1: every NON-diagnosed line bare; 2: every non-diagnosed line with a list of "
+        "all codes of the file; 3+: random subsets of diagnosed lines and of non-diagnosed lines by role — end line / body line / middle line of a node that "
+        "starts on a diagnosed line, neighbour, elsewhere — where tokenize accepts a comment; bare / match-all / match-one / non-matching / mixed / near-miss "
+        "lists; comma, space, comma+space; gaps and trailing blanks); one case = (file bytes, line, appended text)"
     )
     try:
         seps, trailing = extract_c08.probe()
